@@ -967,6 +967,29 @@ theorem lookups_subset_extract_wide (cfg : Cfg) (ctx : Ctx) (s : TStream) (h : W
   · exact h1
   · rw [hlet] at h1; cases h1
 
+theorem extractWith_default (cfg : Cfg) (s : TStream) : extractWith cfg true [] [] s = extract cfg s := by
+  simp [extractWith, extract]
+
+/-- **lookups ⊆ extraction, every argument of both entry points quantified**: the
+    `translate_text` / `translate_attrs` arguments of `Translator.__call__`, the template context,
+    and the `search_text` / `comment_stack` / `context_stack` arguments of `Translator.extract`
+    (`search_text=False` only together with `extract_text=False`: otherwise text is looked up
+    that extraction was told not to search) -/
+theorem lookups_subset_extract_args (cfg : Cfg) (ctx : Ctx) (s : TStream) (h : WideList cfg s)
+    (tt ta st : Bool) (cs xs : List Str) (hst : st = true ∨ cfg.extractText = false) :
+    ∃ ms, extractWith cfg st cs xs s = .ok ms ∧
+      (∀ l ∈ lookups cfg ctx tt ta s, hasLetter l.msgid = true → l.msgid ∈ idsOf ms) ∧
+      (∀ id ∈ msgIdsW s, id ∈ idsOf ms) := by
+  obtain ⟨ms, hms, hj, hh⟩ := ex_lk3_list cfg s h 0 (cfg.extractText && st) cs xs
+  refine ⟨ms, hms, fun l hl hlet => ?_, hh⟩
+  have hst' : (cfg.extractText && st) = cfg.extractText := by
+    rcases hst with h1 | h1 <;> simp [h1]
+  have := hj hst' ctx (cfg.extractText && tt) (cfg.extractText && ta) (by simp; intro a _; exact a)
+    (by simp; intro a _; exact a) l (by simpa [lookups] using hl)
+  rcases this with h1 | h1
+  · exact h1
+  · rw [hlet] at h1; cases h1
+
 /-! ### the streams of the earlier theorem are among the wide ones -/
 
 theorem ok_of_isOk {x : Except Err MB} (h : (match x with | .ok _ => true | .error _ => false) = true) :
